@@ -398,7 +398,19 @@ mod real {
             conv.segments.iter().map(|s| hex(s)).collect::<Vec<_>>().join("/"),
             table_s
         );
-        let result = converse(p.port, conv, expected.len(), wait_mode, pause_after);
+        // Timing never decides a verdict: an outcome that can be produced by scheduling delays alone (a
+        // close that is expected but not yet seen, a read that timed out) is re-run on a fresh
+        // connection and reported only if it reproduces; `skip:` results are not emitted at all.
+        let mut result = converse(p.port, conv, expected.len(), wait_mode, pause_after, closes);
+        for _ in 0..2 {
+            let suspicious = result.starts_with("err:timeout") || result.starts_with("err:no-close")
+                || result.starts_with("skip:") || (closes && result.ends_with(" open"));
+            if !suspicious {
+                break;
+            }
+            std::thread::sleep(Duration::from_millis(200));
+            result = converse(p.port, conv, expected.len(), wait_mode, pause_after, closes);
+        }
         (case, result)
     }
 
@@ -420,7 +432,7 @@ mod real {
         let _ = s.set_nonblocking(false);
     }
 
-    fn converse(port: u16, conv: &Conv, expect_len: usize, wait_mode: bool, pause_after: Option<usize>) -> String {
+    fn converse(port: u16, conv: &Conv, expect_len: usize, wait_mode: bool, pause_after: Option<usize>, closes: bool) -> String {
         let mut s = match TcpStream::connect_timeout(&local(port), LONG) {
             Ok(s) => s,
             Err(e) => return format!("err:connect:{:?}", e.kind()),
@@ -462,17 +474,25 @@ mod real {
         let start = Instant::now();
         let mut state = "-";
         if wait_mode {
-            // wait for the server to close; once everything expected has arrived give it 250 ms
-            // more before declaring the connection open
+            // wait for the server to close; once everything expected has arrived give it a quiet
+            // period before declaring the connection open: 250 ms when no close is expected (a
+            // correct server keeps the connection for its 5 s read timeout), 3.5 s when one is (a
+            // correct server closes at once, a loaded machine may take a while to schedule it; a
+            // server that wrongly keeps the connection does so until its 5 s timeout)
+            let quiet = if closes { Duration::from_millis(3500) } else { Duration::from_millis(250) };
             let mut quiet_deadline: Option<Instant> = None;
             while !eof {
                 if got.len() >= expect_len && quiet_deadline.is_none() {
-                    quiet_deadline = Some(Instant::now() + Duration::from_millis(250));
+                    quiet_deadline = Some(Instant::now() + quiet);
                 }
                 let timeout = match quiet_deadline {
                     Some(d) => match d.checked_duration_since(Instant::now()) {
                         Some(t) if !t.is_zero() => t,
-                        _ => break,
+                        _ => {
+                            // the deadline passed while this thread was not running: look once more
+                            drain_nonblocking(&mut s, &mut got, &mut eof);
+                            break;
+                        }
                     },
                     None => LONG,
                 };
@@ -495,6 +515,10 @@ mod real {
                 if start.elapsed() > LONG * 2 {
                     return "err:timeout".into();
                 }
+            }
+            if eof && !closes && start.elapsed() > Duration::from_millis(2500) {
+                // this client was starved for so long that the server's own read timeout may have fired
+                return "skip:timing".into();
             }
             state = if eof { "closed" } else { "open" };
             let _ = s.shutdown(Shutdown::Both);
@@ -567,7 +591,14 @@ mod real {
         let first_wait = if expected.is_some() { LONG } else { Duration::from_millis(120) };
         let _ = sock.set_read_timeout(Some(first_wait));
         let mut wrong_source = false;
-        if let Ok((n, from)) = sock.recv_from(&mut buf) {
+        let mut first = sock.recv_from(&mut buf);
+        if first.is_err() && expected.is_some() {
+            // UDP may lose a datagram (a full socket buffer on a loaded machine): a missing response
+            // is reported only if it is missing again after one retransmission
+            let _ = sock.send_to(&req, server_addr);
+            first = sock.recv_from(&mut buf);
+        }
+        if let Ok((n, from)) = first {
             if from != server_addr {
                 wrong_source = true;
             }
@@ -661,8 +692,13 @@ mod real {
                 out
             }));
         }
+        let mut skipped = 0usize;
         for h in handles {
             for (case, r) in h.join().expect("client thread panicked") {
+                if r.starts_with("skip:") {
+                    skipped += 1;
+                    continue;
+                }
                 em.emit(&case, &r);
             }
         }
@@ -670,6 +706,6 @@ mod real {
         for p in providers {
             stop(p);
         }
-        eprintln!("framing: {} cases, {:.1} s", em.n, t0.elapsed().as_secs_f64());
+        eprintln!("framing: {} cases, {} discarded for timing, {:.1} s", em.n, skipped, t0.elapsed().as_secs_f64());
     }
 }
